@@ -295,6 +295,17 @@ def check(ctx):
     check_primitives(ctx)
     for key in simloop.SIMULATORS:
         check_loop(ctx, key)
+    # "waiting times are exponential": the clock, the waiting time and the propensities are C doubles throughout - a single-precision
+    # local rounds every event time to 24 bits, which at late times is coarser than the waiting times themselves
+    for key in simloop.SIMULATORS:
+        sl_ = simloop.SimLoop(ctx, key)
+        sp_ = simloop.single_precision_decls(sl_.f)
+        ctx.ob('R5.1-precision', key, not sp_, sl_.where, 'no variable of the simulation loop is declared single precision',
+               '; '.join('%s (%s)' % (n_, sl_.loc(x_)) for n_, x_ in sp_[:3]))
+    rmod = prog.mod('random')
+    sp_ = [(fn_.name, n_) for fn_ in rmod.tree.body if isinstance(fn_, ast.FunctionDef) for n_, _ in simloop.single_precision_decls(fn_)]
+    ctx.ob('R5.1-precision', 'random', not sp_, 'bioscrape/random.pyx', 'no variable of the random primitives is declared single precision',
+           '; '.join('%s in %s' % (n_, f_) for f_, n_ in sp_[:3]))
     # the master equation is built from the stochastic propensities: the interface must evaluate the stochastic slot of every reaction
     # (C01 R1.4) and the stochastic mass-action forms must be the combinatorial ones (C01 R1.1) - re-emitted here
     from . import c01
